@@ -238,6 +238,14 @@ func genC20(c *ctx) {
 		nl := 1 + r.Intn(3)
 		var locs []string
 		seenLoc := map[string]bool{}
+		// one case in six is the shape of finding F13: the trusted host makes the client poll, answers "not ready" at least
+		// once and then redirects the poll to a host BENEATH it (net/http forwards the original request's headers there)
+		f13 := r.P(1, 6)
+		if f13 {
+			nl = 1
+			locs = []string{"https://auth.example"}
+			seenLoc[locs[0]] = true
+		}
 		for len(locs) < nl {
 			a := rng.Pick(r, c20Authorities)
 			l := "https://" + a
@@ -301,6 +309,10 @@ func genC20(c *ctx) {
 		var tpsCoq []string
 		for li, l := range locs {
 			w.script[l] = mkReply(0)
+			if f13 {
+				w.script[l] = &c20Reply{Kind: rng.Pick(r, []string{"RPoll", "RUser"}), Host: "auth.example", N: 1 + r.Intn(2),
+					Next: &c20Reply{Kind: "RRedirect", Host: rng.Pick(r, []string{"sub.auth.example", "a.b.auth.example"}), Next: &c20Reply{Kind: "RDischarge"}}}
+			}
 			u, _ := url.Parse(initURLOf(l))
 			tpsCoq = append(tpsCoq, coqw.App("mkTP", coqw.N(uint64(li+1)), coqw.Str(u.Hostname()), w.script[l].coq(hostnameOf), coqw.Nat(tickets[l])))
 		}
@@ -310,6 +322,12 @@ func genC20(c *ctx) {
 		var optsDesc []string
 		ignored := map[string]bool{}
 		nopt := r.Intn(7)
+		if f13 {
+			cred := fmt.Sprintf("tok%d", r.Intn(3))
+			opts = append(opts, tp.WithAuthentication("https://auth.example", cred))
+			optsCoq = append(optsCoq, coqw.App("WithAuth", coqw.Str(authKey("https://auth.example")), coqw.Str(cred)))
+			optsDesc = append(optsDesc, fmt.Sprintf("WithAuthentication(%q,%q)", "https://auth.example", cred))
+		}
 		for k := 0; k < nopt; k++ {
 			switch r.Intn(6) {
 			case 0, 1:
